@@ -903,7 +903,7 @@ def pymethod(ex, o, name, args, kw):
             return SNum(r, True)
         raise Unsupported(f"str.{name} on symbolic string")
     if isinstance(o, OpaqueStr):
-        return OpaqueStr(name)
+        return o.sym_method(ex, name, args, kw)
     if hasattr(o, "sym_method"):
         return o.sym_method(ex, name, args, kw)
     if isinstance(o, tuple) and o[:1] == ("exc",):
